@@ -519,9 +519,12 @@ def cost_bound(sym, target, n):
     sym.step_limit(None)
     sym.cover("returned")
     total = cost + sym.charged()
-    # ... and each input stays below the bound for its own length.  A value-dependent charge far beyond the bound (more than eight
-    # times the largest budget) is left to the smaller witnesses that exist alongside it: the replay has to finish
-    sym.check("cost-within-the-declared-bound", sym.or_(total > 8 * (base + budget(n)), *[sym.and_(len(s) == k, total <= base + budget(k)) for k in range(n + 1)]))
+    # a value-dependent charge far beyond the bound (more than twice the largest budget) is left to the smaller witnesses that exist
+    # alongside it: replays and the native validation of path witnesses have to finish (the real conversion of such a value takes
+    # minutes and gigabytes)
+    sym.assume(total <= 2 * (base + budget(n)))
+    # ... and each input stays below the bound for its own length
+    sym.check("cost-within-the-declared-bound", sym.or_(*[sym.and_(len(s) == k, total <= base + budget(k)) for k in range(n + 1)]))
     sym.note_max("max-steps-seen", cost)
 
 
